@@ -95,7 +95,12 @@ fn perturb(t: &mut Tape, p: &Program) -> Option<(Program, String)> {
         inside.into_iter().filter(|v| !c.scope.contains(v) && p.var(*v).kind != VarKind::SelfVar && p.var(*v).ty == olds[i].ty).collect()
     };
     let c_oos = cand(&|i| !oos_vars(i).is_empty());
-    let pools: [(&Vec<usize>, u32); 12] = [
+    // the value of a `ret` statement (wherever the statement stands: also inside the trailing expression of a block)
+    let c_ret = cand(&|i| matches!(sites[i].ctx.placement, plant::Placement::ReturnValue));
+    // a block value (not a sub-expression of one) in a function that returns something: it can be wrapped into
+    // `if true do ret <other type> else <value> end` - an early `ret` inside the trailing expression of a block
+    let c_early = cand(&|i| matches!(sites[i].ctx.placement, plant::Placement::ReturnValue) && sites[i].ctx.ret != Ty::Void && olds[i].ty != Ty::Void);
+    let pools: [(&Vec<usize>, u32); 14] = [
         (&c_any, 20),
         (&c_var, 16),
         (&c_blob, 45),
@@ -108,6 +113,8 @@ fn perturb(t: &mut Tape, p: &Program) -> Option<(Program, String)> {
         (&c_op, 14),
         (&c_selfinit, 10),
         (&c_oos, 12),
+        (&c_ret, 14),
+        (&c_early, 10),
     ];
     let weights: Vec<u32> = pools.iter().map(|(c, w)| if c.is_empty() { 0 } else { *w }).collect();
     if weights.iter().all(|w| *w == 0) {
@@ -126,6 +133,16 @@ fn perturb(t: &mut Tape, p: &Program) -> Option<(Program, String)> {
     let mut q = p.clone();
     let (newx, kind): (Expr, &str) = match which {
         0 => (mark(other_scalar(t, &claimed)), "literal-of-other-type"),
+        12 => (mark(other_scalar(t, &claimed)), "returned-literal-of-other-type"),
+        13 => {
+            let rt = site.ctx.ret.clone();
+            let bad = other_scalar(t, &rt);
+            let marked = e(rt.clone(), EKind::Mark(Box::new(Expr { ty: rt.clone(), kind: bad.kind })));
+            let cond = if t.chance(2, 3) { boolean(true) } else { boolean(false) };
+            let then_b = Block { stmts: vec![Stmt::Ret(Some(marked))], value: None };
+            let else_b = Block { stmts: vec![], value: Some(Box::new(old.clone())) };
+            (e(claimed.clone(), EKind::If(vec![(cond, then_b)], Some(else_b))), "early-return-of-other-type")
+        }
         1 => {
             let vars: Vec<VarId> = site
                 .ctx
@@ -343,20 +360,28 @@ impl Check for C02 {
             // the access path is part of the signature where it is a root cause of its own: `self` has no type inside
             // the blob literal that defines it
             let mut on_self = false;
+            let mut elsewhere = false;
             syltmodel::walk::walk_program(&case.prog, &mut |e| {
                 if let EKind::Mark(inner) = &e.kind {
-                    if let EKind::Field(base, _) = &inner.kind {
-                        if let EKind::Var(v) = &base.kind {
-                            if case.prog.var(*v).kind == VarKind::SelfVar {
-                                on_self = true;
+                    if let EKind::Field(base, name) = &inner.kind {
+                        if name == "zznope" {
+                            match &base.kind {
+                                EKind::Var(v) if case.prog.var(*v).kind == VarKind::SelfVar => on_self = true,
+                                _ => elsewhere = true,
                             }
                         }
                     }
                 }
             });
-            let path = if on_self && kind == "field" { "/on-self" } else { "" };
+            // a field error can only come from an unknown-field perturbation; when every one of them is on `self`, the other
+            // perturbation of a doubly perturbed program has nothing to do with it
+            let (kinds, path) = if kind == "field" && what.contains("no field zznope") && on_self && !elsewhere {
+                ("unknown-field".to_string(), "/on-self")
+            } else {
+                (case.kinds.join("+"), "")
+            };
             return Verdict::Violation {
-                signature: format!("C02/strict-dynerror/{}/{}{}", kind, case.kinds.join("+"), path),
+                signature: format!("C02/strict-dynerror/{}/{}{}", kind, kinds, path),
                 detail: format!(
                     "the compiler accepts this program, but executing it applies an operation to a value of the wrong type: {} ({})\nperturbation: {:?}\n--- source ---\n{}",
                     kind, what, case.kinds, printed.text
